@@ -4,6 +4,7 @@
 // QUAL / y agreement, share vs. commitments, EVERY (t+1)-subset of honest qualified shares
 // interpolates to the same x with g^x = y, refresh invariance, dealer's secret reconstructed.
 #include "parties.hh"
+#include <memory>
 #include "mutate.hh"
 using namespace vf;
 const char *vf::PROPERTY = "C15";
@@ -15,7 +16,7 @@ static Grp pick_grp(Ctx &ctx) {
   auto l = split_lines(vtmf_group_text(gs.kind, gs.fsize, gs.gsize, gs.idx)); r.p = zparse62(l[0]); r.q = zparse62(l[1]); r.g = zparse62(l[2]); r.F = gs.fsize; r.G = gs.gsize;
   r.h = zpowm(r.g, zrand_below(ctx, r.q - 2) + 2, r.p); return r;
 }
-enum FaultKind { F_NONE = 0, F_SILENT, F_LIBSWITCH, F_WRONG_SHARE, F_DROP_AFTER };
+enum FaultKind { F_NONE = 0, F_SILENT, F_LIBSWITCH, F_WRONG_SHARE, F_DROP_AFTER, F_FALSE_COMPLAINT };
 struct Faults { std::vector<int> kind; std::vector<size_t> arg; std::vector<std::vector<bool> > victim; std::string desc; size_t count = 0; };
 // wrong-share: the faulty party follows the protocol, but the network tap adds 1 to its arg-th private value towards each party of a
 // generated victim set of 1..t+1 others (so the number of complaints lands below, at and above the disqualification threshold t, with
@@ -24,12 +25,15 @@ static Faults pick_faults(Ctx &ctx, size_t n, size_t maxf, size_t t = 1) {
   Faults f; f.kind.assign(n, F_NONE); f.arg.assign(n, 0); f.victim.assign(n, std::vector<bool>(n, false)); size_t k = maxf ? (size_t)ctx.c.range(1, maxf) : 0;
   std::vector<size_t> idx(n); for (size_t i = 0; i < n; i++) idx[i] = i;
   for (size_t i = 0; i < k; i++) { size_t j = i + ctx.c.index(n - i); std::swap(idx[i], idx[j]); size_t who = idx[i];
-    f.kind[who] = 1 + (int)ctx.c.weighted({2, 3, 4, 0}); // partial silence (drop-after) is not generated: cascaded time-outs at the parties that were still served
+    f.kind[who] = 1 + (int)ctx.c.weighted({2, 3, 4, 0, 2}); // partial silence (drop-after) is not generated: cascaded time-outs at the parties that were still served
     // desynchronise the honest parties, which is outside the synchrony assumption of the property (DESIGN.md, observation O6)
-    static const char *nm[] = {"", "silent", "library-switch", "wrong-share", "drop-after"}; f.desc += " P" + std::to_string(who) + ":" + nm[f.kind[who]];
+    static const char *nm[] = {"", "silent", "library-switch", "wrong-share", "drop-after", "false-complaint"}; f.desc += " P" + std::to_string(who) + ":" + nm[f.kind[who]];
     if (f.kind[who] == F_WRONG_SHARE) { f.arg[who] = ctx.c.weighted({5, 2, 1, 1}); size_t nv = 1 + ctx.c.weighted({3, 3, 1}) % (t + 1); if (nv > n - 1) nv = n - 1;
       std::vector<size_t> others; for (size_t x = 0; x < n; x++) if (x != who) others.push_back(x);
       f.desc += "(value#" + std::to_string(f.arg[who]) + "->"; for (size_t v = 0; v < nv; v++) { size_t z = v + ctx.c.index(others.size() - v); std::swap(others[v], others[z]); f.victim[who][others[v]] = true; f.desc += "P" + std::to_string(others[v]); } f.desc += ")"; }
+    // false complaint: the party follows the protocol, but the first end marker (the value n) it broadcasts is turned into the index of
+    // another party, i.e. into a complaint against a dealer that served it correctly (its real end marker is then missing)
+    if (f.kind[who] == F_FALSE_COMPLAINT) { f.arg[who] = (who + 1 + ctx.c.index(n - 1)) % n; f.desc += "(against P" + std::to_string(f.arg[who]) + ")"; }
     f.count++; }
   return f;
 }
@@ -38,7 +42,11 @@ static void install_tap(Cluster &cl, const Faults &f) {
     if (f.kind[from] == F_WRONG_SHARE && f.victim[from][to] && idx == f.arg[from]) { v += 1; return 0; }
     if (f.kind[from] == F_DROP_AFTER) { unsigned long tot = 0; for (size_t x = 0; x < cl.n; x++) tot += cl.uni.count[from][x]; if (tot > f.arg[from] * 3) return 1; }
     return 0; };
-  cl.bc.tap = [&cl, f](size_t from, size_t, unsigned long, detsim::Z &) -> int {
+  auto lastact = std::make_shared<std::vector<std::vector<long> > >(cl.n, std::vector<long>(cl.n, 0)); auto done = std::make_shared<std::vector<std::vector<bool> > >(cl.n, std::vector<bool>(cl.n, false));
+  cl.bc.tap = [&cl, f, lastact, done](size_t from, size_t to, unsigned long idx, detsim::Z &v) -> int {
+    if (f.kind[from] == F_FALSE_COMPLAINT) { // the broadcast layer sends 5-tuples (channel, sender, sequence number, action, payload); action 1 = r-send
+      if (idx % 5 == 3) (*lastact)[from][to] = v.fits_slong_p() ? v.get_si() : -1;
+      else if (idx % 5 == 4 && (*lastact)[from][to] == 1 && !(*done)[from][to] && v == detsim::Z((unsigned long)cl.n)) { v = detsim::Z((unsigned long)f.arg[from]); (*done)[from][to] = true; } }
     if (f.kind[from] == F_DROP_AFTER) { unsigned long tot = 0; for (size_t x = 0; x < cl.n; x++) tot += cl.bc.count[from][x]; if (tot > (f.arg[from] + 2) * 40) return 1; }
     return 0; };
 }
@@ -67,7 +75,7 @@ VF_SUB(gjkr_dkg, 110, 2500) {
   bool simok = cl.run(ctx, [&](PartyEnv &e) {
     dkg[e.i] = new GennaroJareckiKrawczykRabinDKG(n, t, e.i, G.p.get_mpz_t(), G.q.get_mpz_t(), G.g.get_mpz_t(), G.h.get_mpz_t(), G.F, G.G, true, false, "c15");
     e.rbc->setID("c15-gjkr-dkg"); ret[e.i] = dkg[e.i]->Generate(e.aiou, e.rbc, e.err, F.kind[e.i] == F_LIBSWITCH); e.rbc->unsetID(); });
-  ctx.desc << d.str() << " vtime=" << vf::vnow << " msgs=" << cl.uni.sent + cl.bc.sent; ctx.label("n=" + std::to_string(n)); ctx.label(F.count ? "with-faults" : "fault-free"); for (size_t z = 0; z < n; z++) if (F.kind[z]) ctx.label(std::string("fault:") + (F.kind[z] == F_SILENT ? "silent" : F.kind[z] == F_LIBSWITCH ? "library-switch" : "wrong-share"));
+  ctx.desc << d.str() << " vtime=" << vf::vnow << " msgs=" << cl.uni.sent + cl.bc.sent; ctx.label("n=" + std::to_string(n)); ctx.label(F.count ? "with-faults" : "fault-free"); for (size_t z = 0; z < n; z++) if (F.kind[z]) ctx.label(std::string("fault:") + (F.kind[z] == F_SILENT ? "silent" : F.kind[z] == F_LIBSWITCH ? "library-switch" : F.kind[z] == F_FALSE_COMPLAINT ? "false-complaint" : "wrong-share"));
   if (F.count >= 1 || n >= 4) ctx.nontrivial(d.str() + std::to_string(cl.bc.sent));
   if (!simok) ctx.fail("sharing/gjkr_dkg/simulation-deadlock-or-time-budget", d.str() + cl.task_errors());
   std::vector<size_t> H; for (size_t i = 0; i < n; i++) if (honest(F, i)) H.push_back(i);
@@ -100,7 +108,7 @@ VF_SUB(pedersen_vss, 90, 2000) {
     if (e.i == dealer) ret[e.i] = vss[e.i]->Share(sigma.get_mpz_t(), e.aiou, e.rbc, e.err, F.kind[e.i] == F_LIBSWITCH); else ret[e.i] = vss[e.i]->Share(dealer, e.aiou, e.rbc, e.err, F.kind[e.i] == F_LIBSWITCH);
     e.rbc->unsetID(); cl.barrier(e, 1);
     e.rbc->setID("c15-vss-reconstruct"); Z s = 42; rret[e.i] = vss[e.i]->Reconstruct(dealer, s.get_mpz_t(), e.rbc, e.err); rec[e.i] = s; e.rbc->unsetID(); });
-  ctx.desc << d.str() << " vtime=" << vf::vnow; ctx.label("n=" + std::to_string(n)); ctx.label(F.count ? "with-faults" : "fault-free"); for (size_t z = 0; z < n; z++) if (F.kind[z]) ctx.label(std::string("fault:") + (F.kind[z] == F_SILENT ? "silent" : F.kind[z] == F_LIBSWITCH ? "library-switch" : "wrong-share")); ctx.label(honest(F, dealer) ? "honest-dealer" : "faulty-dealer");
+  ctx.desc << d.str() << " vtime=" << vf::vnow; ctx.label("n=" + std::to_string(n)); ctx.label(F.count ? "with-faults" : "fault-free"); for (size_t z = 0; z < n; z++) if (F.kind[z]) ctx.label(std::string("fault:") + (F.kind[z] == F_SILENT ? "silent" : F.kind[z] == F_LIBSWITCH ? "library-switch" : F.kind[z] == F_FALSE_COMPLAINT ? "false-complaint" : "wrong-share")); ctx.label(honest(F, dealer) ? "honest-dealer" : "faulty-dealer");
   if (F.count >= 1 || n >= 4) ctx.nontrivial(d.str() + std::to_string(cl.bc.sent));
   if (!simok) ctx.fail("sharing/pedersen_vss/simulation-deadlock-or-time-budget", d.str() + cl.task_errors());
   std::vector<size_t> H; for (size_t i = 0; i < n; i++) if (honest(F, i)) H.push_back(i);
@@ -137,7 +145,7 @@ VF_SUB(cgjkr_dkg_refresh, 60, 1500) {
     e.rbc->setID("c15-cgjkr-generate"); ret[e.i] = dkg[e.i]->Generate(e.aiou, e.rbc, e.err, F.kind[e.i] == F_LIBSWITCH); e.rbc->unsetID();
     x_before[e.i] = Z(dkg[e.i]->x_i); y_before[e.i] = Z(dkg[e.i]->y); qual_before[e.i] = dkg[e.i]->QUAL; cl.barrier(e, 1);
     e.rbc->setID("c15-cgjkr-refresh"); rret[e.i] = dkg[e.i]->Refresh(n, e.i, e.aiou, e.rbc, e.err, F.kind[e.i] == F_LIBSWITCH); e.rbc->unsetID(); });
-  ctx.desc << d.str() << " vtime=" << vf::vnow; ctx.label("n=" + std::to_string(n)); ctx.label(F.count ? "with-faults" : "fault-free"); for (size_t z = 0; z < n; z++) if (F.kind[z]) ctx.label(std::string("fault:") + (F.kind[z] == F_SILENT ? "silent" : F.kind[z] == F_LIBSWITCH ? "library-switch" : "wrong-share"));
+  ctx.desc << d.str() << " vtime=" << vf::vnow; ctx.label("n=" + std::to_string(n)); ctx.label(F.count ? "with-faults" : "fault-free"); for (size_t z = 0; z < n; z++) if (F.kind[z]) ctx.label(std::string("fault:") + (F.kind[z] == F_SILENT ? "silent" : F.kind[z] == F_LIBSWITCH ? "library-switch" : F.kind[z] == F_FALSE_COMPLAINT ? "false-complaint" : "wrong-share"));
   if (F.count >= 1 || n >= 4) ctx.nontrivial(d.str() + std::to_string(cl.bc.sent));
   if (!simok) ctx.fail("sharing/cgjkr_dkg/simulation-deadlock-or-time-budget", d.str() + cl.task_errors());
   std::vector<size_t> H; for (size_t i = 0; i < n; i++) if (honest(F, i)) H.push_back(i);
